@@ -321,11 +321,26 @@ class Tree:
 
     # ---- Ok / Err edges of a call ------------------------------------------------------
     def result_edges(self, fn, call_site):
-        """(ok_edge, err_edge) of a call returning Result/Option, through `?` or match; None when not found"""
+        """(ok_edge, err_edge) of a call returning Result/Option, through `?` or match; None when not found. Adaptors that keep the Ok/Some-ness
+        of the value (`.map_err(..)`, `.ok()`, `.ok_or(..)`, `.as_ref()`, `.map(..)`, `.inspect_err(..)`) are looked through."""
         me = fn.call_origin(call_site.node)
+        KEEP = ("map_err", "ok", "ok_or", "ok_or_else", "as_ref", "as_mut", "map", "inspect_err", "inspect", "as_deref", "as_deref_mut", "copied", "cloned")
+        def peel(o):
+            o = strip(o)
+            for _ in range(6):
+                if isinstance(o, tuple) and o[0] == "call" and method_of(o[1]) in KEEP and ("Result" in o[1] or "Option" in o[1] or "<T" in o[1]) and o[2]: o = strip(o[2][0])
+                else: break
+            return o
         for br in self.branches(fn):
             if br["kind"] != "discr": continue
             on = strip(br["on"])
+            if isinstance(on, tuple) and on[0] == "call" and on[1].endswith("Try>::branch") and norm(peel(on[2][0])) == norm(me):
+                return (br["bb"], br["targets"].get(0, br["otherwise"])), (br["bb"], br["targets"].get(1, br["otherwise"]))
+            if norm(peel(on)) == norm(me) and norm(on) != norm(me):
+                # matched after an adaptor: variant numbering of the adapted type (Option: None 0 / Some 1; Result: Ok 0 / Err 1)
+                is_opt = isinstance(on, tuple) and on[0] == "call" and method_of(on[1]) in ("ok", "as_ref", "as_mut", "copied", "cloned", "map", "as_deref") and "Option" in on[1] or (isinstance(on, tuple) and on[0] == "call" and method_of(on[1]) == "ok")
+                okv, errv = (1, 0) if is_opt else (0, 1)
+                return (br["bb"], br["targets"].get(okv, br["otherwise"])), (br["bb"], br["targets"].get(errv, br["otherwise"]))
             # direct match on the result
             if norm(on) == norm(me):
                 names = self.variant_map(fn, call_site.node["dest"])
